@@ -46,6 +46,7 @@ type c38DNSCase struct {
 	Shape   string    `json:"shape"`   // what the generator aimed for (informational; classes are recomputed from Steps)
 	Label   string    `json:"label"`   // host label inside the zone
 	Spell   string    `json:"spell"`   // lower | upper | mixed | rooted
+	Port    string    `json:"port"`    // all: the port bound on every address of this machine | lo: the port bound on 127.0.0.1/::1 only (any other local address refuses at once)
 	Literal string    `json:"literal"` // non-empty: an IP literal is used instead of a name (no DNS involved)
 	Steps   []dnsStep `json:"steps"`   // answer schedule: query k (per record type) gets Steps[min(k, len-1)]
 	Allow   string    `json:"allow"`
@@ -342,13 +343,17 @@ func (d *fakeDNS) install() func() {
 func genPub4(rt *rapid.T, live bool) string {
 	p := getProbeServer()
 	k := rapid.IntRange(0, 9).Draw(rt, "p4")
-	if k < 9 && live && p.firstHop != "" && netip.MustParseAddr(p.firstHop).Is4() {
-		return p.firstHop // a live dial to it completes at once; anything else may wait for the deadline
-	}
-	if k < 6 && p.firstHop != "" && netip.MustParseAddr(p.firstHop).Is4() {
+	fhOK := p.firstHop != "" && netip.MustParseAddr(p.firstHop).Is4()
+	if live {
+		// a live dial to the local non-internal address completes (or is refused)
+		// at once; a documentation address may wait for the deadline: keep those few
+		// (k == 6 rather than an edge value: rapid favours the edges of a range)
+		if fhOK && k != 6 {
+			return p.firstHop
+		}
+	} else if fhOK && k < 3 {
 		return p.firstHop
-	}
-	if !live && k == 9 {
+	} else if k < 7 {
 		return rapid.SampledFrom([]string{"93.184.216.34", "8.8.8.8", "1.1.1.1", "151.101.1.69", "126.255.255.255", "172.32.0.1", "11.0.0.1"}).Draw(rt, "real4")
 	}
 	return fmt.Sprintf("203.0.113.%d", rapid.IntRange(1, 254).Draw(rt, "doc4"))
@@ -362,7 +367,10 @@ func genPub6(rt *rapid.T, live bool) string {
 }
 
 // internal addresses that arrive at this machine (the listener sees the connection)
-func genInt4Reach(rt *rapid.T) string {
+func genInt4Reach(rt *rapid.T, lo bool) string {
+	if lo { // only what arrives at the listeners bound on 127.0.0.1 / ::1
+		return rapid.SampledFrom([]string{"127.0.0.1", "127.0.0.1", "127.0.0.1", "0.0.0.0"}).Draw(rt, "i4lo")
+	}
 	switch rapid.IntRange(0, 5).Draw(rt, "i4") {
 	case 0, 1, 2:
 		return "127.0.0.1"
@@ -380,7 +388,10 @@ func genInt4Reach(rt *rapid.T) string {
 	}
 }
 
-func genInt6Reach(rt *rapid.T) string {
+func genInt6Reach(rt *rapid.T, lo bool) string {
+	if lo {
+		return rapid.SampledFrom([]string{"::1", "::1", "::ffff:127.0.0.1", "::", "::ffff:0.0.0.0"}).Draw(rt, "i6lo")
+	}
 	switch rapid.IntRange(0, 6).Draw(rt, "i6") {
 	case 0, 1, 2:
 		return "::1"
@@ -424,14 +435,20 @@ func genStepPublic(rt *rapid.T, live bool, fam int) dnsStep { // fam: 0 both, 4,
 	return st
 }
 
-// genStepUnreachable: documentation addresses only, so every vetted address
-// fails to connect (what a dialer does after that is then observable).
+// genStepUnreachable: used with the loopback-only port, so that every vetted
+// address fails to connect (what a dialer does after that is then observable).
 func genStepUnreachable(rt *rapid.T) dnsStep {
 	var st dnsStep
-	fam := rapid.SampledFrom([]int{4, 4, 4, 4, 0, 6}).Draw(rt, "ufam")
+	fam := rapid.SampledFrom([]int{4, 4, 4, 4, 4, 0, 4, 4, 4, 6, 4, 4}).Draw(rt, "ufam")
 	if fam != 6 {
 		for i, n := 0, rapid.IntRange(1, 2).Draw(rt, "n4"); i < n; i++ {
-			st.A = append(st.A, fmt.Sprintf("203.0.113.%d", rapid.IntRange(1, 254).Draw(rt, "doc4")))
+			// on the loopback-only port the non-internal local address refuses at
+			// once; a documentation address fails at once or hangs until the deadline
+			if fh := getProbeServer().firstHop; fh != "" && netip.MustParseAddr(fh).Is4() && rapid.IntRange(0, 11).Draw(rt, "ufh") != 7 {
+				st.A = append(st.A, fh)
+			} else {
+				st.A = append(st.A, fmt.Sprintf("203.0.113.%d", rapid.IntRange(1, 254).Draw(rt, "doc4")))
+			}
 		}
 	}
 	if fam != 4 {
@@ -440,14 +457,14 @@ func genStepUnreachable(rt *rapid.T) dnsStep {
 	return st
 }
 
-func genStepInternal(rt *rapid.T, reachOnly bool) dnsStep {
+func genStepInternal(rt *rapid.T, reachOnly, lo bool) dnsStep {
 	var st dnsStep
 	k := rapid.IntRange(0, 5).Draw(rt, "ik")
 	if k <= 2 || k == 5 {
-		st.A = append(st.A, genInt4Reach(rt))
+		st.A = append(st.A, genInt4Reach(rt, lo))
 	}
 	if k >= 3 && k != 5 || k == 2 {
-		st.AAAA = append(st.AAAA, genInt6Reach(rt))
+		st.AAAA = append(st.AAAA, genInt6Reach(rt, lo))
 	}
 	if !reachOnly && rapid.IntRange(0, 2).Draw(rt, "dead") == 0 {
 		if rapid.Bool().Draw(rt, "d46") {
@@ -459,9 +476,9 @@ func genStepInternal(rt *rapid.T, reachOnly bool) dnsStep {
 	return st
 }
 
-func genStepMixed(rt *rapid.T, live bool) dnsStep {
+func genStepMixed(rt *rapid.T, live, lo bool) dnsStep {
 	st := genStepPublic(rt, live, rapid.SampledFrom([]int{0, 4, 6}).Draw(rt, "mf"))
-	in := genStepInternal(rt, false)
+	in := genStepInternal(rt, false, lo)
 	// the internal address goes first or last
 	if rapid.Bool().Draw(rt, "ifirst") {
 		st.A = append(in.A, st.A...)
@@ -500,21 +517,26 @@ func genC38DNS(rt *rapid.T) c38DNSCase {
 		}
 		return []dnsStep{st}
 	}
+	c.Port = "all"
+	lo := false
+	if getProbeServer().loPort != 0 && (c.Shape == "unreachable-then-internal" || rapid.IntRange(0, 19).Draw(rt, "lo") == 11) {
+		c.Port, lo = "lo", true
+	}
 	switch c.Shape {
 	case "dual-then-internal":
-		c.Steps = append(repeat(genStepPublic(rt, live, 0)), genStepInternal(rt, true))
+		c.Steps = append(repeat(genStepPublic(rt, live, 0)), genStepInternal(rt, true, lo))
 	case "single-rebind":
-		c.Steps = append(repeat(genStepPublic(rt, live, rapid.SampledFrom([]int{4, 4, 4, 4, 4, 4, 4, 6}).Draw(rt, "fam"))), genStepInternal(rt, true))
+		c.Steps = append(repeat(genStepPublic(rt, live, rapid.SampledFrom([]int{4, 4, 4, 4, 4, 4, 4, 6}).Draw(rt, "fam"))), genStepInternal(rt, true, lo))
 	case "unreachable-then-internal":
-		c.Steps = append(repeat(genStepUnreachable(rt)), genStepInternal(rt, true))
+		c.Steps = append(repeat(genStepUnreachable(rt)), genStepInternal(rt, true, lo))
 	case "all-internal":
 		for i, n := 0, rapid.IntRange(1, 3).Draw(rt, "ns"); i < n; i++ {
-			c.Steps = append(c.Steps, genStepInternal(rt, i > 0))
+			c.Steps = append(c.Steps, genStepInternal(rt, i > 0, lo))
 		}
 	case "mixed-first":
-		c.Steps = []dnsStep{genStepMixed(rt, live)}
+		c.Steps = []dnsStep{genStepMixed(rt, live, lo)}
 		if rapid.Bool().Draw(rt, "more") {
-			c.Steps = append(c.Steps, genStepInternal(rt, true))
+			c.Steps = append(c.Steps, genStepInternal(rt, true, lo))
 		}
 	case "stable-public":
 		c.Steps = repeat(genStepPublic(rt, live, rapid.SampledFrom([]int{0, 0, 0, 4, 4, 4, 4, 6}).Draw(rt, "fam")))
@@ -526,9 +548,9 @@ func genC38DNS(rt *rapid.T) c38DNSCase {
 			case 1:
 				c.Steps = append(c.Steps, genStepPublic(rt, live, rapid.SampledFrom([]int{4, 6}).Draw(rt, "fam")))
 			case 2, 3:
-				c.Steps = append(c.Steps, genStepInternal(rt, false))
+				c.Steps = append(c.Steps, genStepInternal(rt, false, lo))
 			case 4:
-				c.Steps = append(c.Steps, genStepMixed(rt, live))
+				c.Steps = append(c.Steps, genStepMixed(rt, live, lo))
 			default:
 				c.Steps = append(c.Steps, dnsStep{})
 			}
@@ -584,7 +606,7 @@ func runC38DNS(s *kit.Session, f kit.Failer, c c38DNSCase) {
 	active := c.active()
 	sc := c.schedClass()
 	sigBase := c.Mode + ":" + sc
-	classes := []string{"mode:" + c.Mode, "sched:" + sc, "spell:" + c.Spell}
+	classes := []string{"mode:" + c.Mode, "sched:" + sc, "spell:" + c.Spell, "port:" + c.Port}
 	if !active {
 		classes = append(classes, "allow-switch-on")
 	}
@@ -592,7 +614,15 @@ func runC38DNS(s *kit.Session, f kit.Failer, c c38DNSCase) {
 	if c.Literal != "" {
 		litAddr = netip.MustParseAddr(c.Literal)
 	}
-	u := "http://" + c.hostPort(p.port) + c.Path
+	port := p.port
+	if c.Port == "lo" {
+		if p.loPort == 0 {
+			s.Note(c, false, "no-loopback-only-port")
+			return
+		}
+		port = p.loPort
+	}
+	u := "http://" + c.hostPort(port) + c.Path
 
 	p.beginWindow()
 	t0 := time.Now()
@@ -731,7 +761,7 @@ func runC38DNS(s *kit.Session, f kit.Failer, c c38DNSCase) {
 
 	case "dial":
 		ctx, cancel := context.WithTimeout(context.Background(), dnsDialDeadline)
-		conn, err := daisen2.VerifGuardedDialContext(ctx, "tcp", c.hostPort(p.port))
+		conn, err := daisen2.VerifGuardedDialContext(ctx, "tcp", c.hostPort(port))
 		cancel()
 		var remote netip.Addr
 		if conn != nil {
@@ -742,11 +772,11 @@ func runC38DNS(s *kit.Session, f kit.Failer, c c38DNSCase) {
 		}
 		if active && conn != nil {
 			if remote.IsValid() && isInternalClass(classify(remote)) {
-				s.Fail(f, c, "dns-dial-connected-internal:"+sigBase, "guardedDialContext(%q) returned a connection to %s (%s); DNS answers served per lookup: %v", c.hostPort(p.port), remote, classify(remote), d.lookups())
+				s.Fail(f, c, "dns-dial-connected-internal:"+sigBase, "guardedDialContext(%q) returned a connection to %s (%s); DNS answers served per lookup: %v", c.hostPort(port), remote, classify(remote), d.lookups())
 				return
 			}
 			if everyLookupInternal() {
-				s.Fail(f, c, "dns-success-despite-internal:"+sigBase, "guardedDialContext(%q) connected (to %s) although every resolution held an internal address: %v", c.hostPort(p.port), remote, d.lookups())
+				s.Fail(f, c, "dns-success-despite-internal:"+sigBase, "guardedDialContext(%q) connected (to %s) although every resolution held an internal address: %v", c.hostPort(port), remote, d.lookups())
 				return
 			}
 		}
